@@ -141,7 +141,7 @@ pub struct Ctx {
 }
 
 pub fn make_ctx(text: &str) -> Ctx {
-    let mut store = AnnotationStore::default();
+    let mut store = new_store();
     store
         .add_resource(TextResourceBuilder::new().with_id("r").with_text(text))
         .expect("resource");
